@@ -162,6 +162,30 @@ def _reject_formula(fi) -> List[ast.expr]:
     return out
 
 
+def _read_size(repo, fi, expr: ast.AST):
+    """`io.read(n)` / `_read_exact(io, n)` (or a local bound to one) -> source text of n, else None."""
+    if isinstance(expr, ast.Name):
+        v = single_assign_value(fi.node, expr.id)
+        return _read_size(repo, fi, v) if v is not None else None
+    if isinstance(expr, ast.Call):
+        f = src(expr.func)
+        if f.endswith(".read") and len(expr.args) == 1:
+            return src(expr.args[0])
+        if f == "_read_exact" and len(expr.args) == 2:
+            return src(expr.args[1])
+    return None
+
+
+def _from_bytes_of(repo, fi, size: str, signed: str) -> bool:
+    """Does fi return int.from_bytes(<read of `size` bytes>, byteorder, signed=<signed>)?"""
+    for c in calls_in(fi.node):
+        if src(c.func) == "int.from_bytes" and len(c.args) >= 2 and src(c.args[1]) == "byteorder":
+            kw = {k.arg: src(k.value) for k in c.keywords}
+            if _read_size(repo, fi, c.args[0]) == size and kw.get("signed") == signed:
+                return True
+    return False
+
+
 @rule("C14.3", ["C14"], "each encoder's encode/decode are dual and validate() rejects exactly the unrepresentable values", 14)
 def c14_3(ctx: Ctx):
     repo = ctx.repo
@@ -170,7 +194,7 @@ def c14_3(ctx: Ctx):
     enc, dec = ie.methods["encode"], ie.methods["decode"]
     ctx.check("value.to_bytes(self.byte_size, byteorder, signed=self.signed)" in src(enc.node), enc, enc.node, "_IntEncoder.encode: to_bytes(byte_size, byteorder, signed=signed)", "encode changed")
     d = src(dec.node)
-    ctx.check("int.from_bytes(io.read(self.byte_size), byteorder, signed=self.signed)" in d, dec, dec.node, "_IntEncoder.decode reads byte_size bytes with the same byteorder/signedness", "decode is not the dual of encode")
+    ctx.check(_from_bytes_of(ctx.repo, dec, "self.byte_size", "self.signed"), dec, dec.node, "_IntEncoder.decode reads byte_size bytes with the same byteorder/signedness", "decode is not the dual of encode")
     rets = [n for n in walk_no_nested(dec.node) if isinstance(n, ast.Return)]
     ctx.check(len(rets) == 1 and isinstance(rets[0].value, ast.Tuple) and src(rets[0].value.elts[1]) == "self.byte_size", dec, dec.node, "_IntEncoder.decode reports byte_size bytes read", "reported size differs from the bytes read")
     for cname, signed in (("_UIntEncoder", "False"), ("_SIntEncoder", "True")):
@@ -180,7 +204,9 @@ def c14_3(ctx: Ctx):
     pe = repo.cls(E + "_UIntPtrEncoder")
     ctx.check("value.to_bytes(ptr_size, byteorder, signed=False)" in src(pe.methods["encode"].node), pe.methods["encode"], None, "_UIntPtrEncoder.encode: ptr_size bytes unsigned", "changed")
     d = src(pe.methods["decode"].node)
-    ctx.check("int.from_bytes(io.read(ptr_size), byteorder, signed=False)" in d and d.count("ptr_size") >= 3, pe.methods["decode"], None, "_UIntPtrEncoder.decode: dual, reports ptr_size", "changed")
+    prets = [n for n in walk_no_nested(pe.methods["decode"].node) if isinstance(n, ast.Return)]
+    ctx.check(_from_bytes_of(ctx.repo, pe.methods["decode"], "ptr_size", "False") and len(prets) == 1 and isinstance(prets[0].value, ast.Tuple) and src(prets[0].value.elts[1]) == "ptr_size",
+              pe.methods["decode"], None, "_UIntPtrEncoder.decode: dual, reports ptr_size", "changed")
     for cname, mod_ in (("_ULEB128Encoder", "u"), ("_SLEB128Encoder", "i")):
         c = repo.cls(E + cname)
         ctx.check(f"leb128.{mod_}.encode(value)" in src(c.methods["encode"].node) and f"leb128.{mod_}.decode_reader(io)" in src(c.methods["decode"].node),
@@ -290,8 +316,9 @@ def c14_5(ctx: Ctx):
     ee = repo.cls("dwarf.cfi._ExprEncoder")
     te, td = src(ee.methods["encode"].node), src(ee.methods["decode"].node)
     ctx.check("leb128.u.encode(len(encoded_expr)) + encoded_expr" in te, ee.methods["encode"], None, "expression block = ULEB length + operations", "length prefix changed")
-    ctx.check("leb128.u.decode_reader(io)" in td and "while op_bytes_read < length:" in td and "return (ops, len_read + op_bytes_read)" in td.replace("\n", " "), ee.methods["decode"], None,
-              "expression decode consumes exactly `length` bytes and reports prefix + body", "expression decode accounting changed")
+    prefix_ok = "leb128.u.decode_reader(io)" in td or "_ULEB128Encoder().decode(io, byteorder, ptr_size)" in td
+    ctx.check(prefix_ok and "while op_bytes_read < length:" in td and "return (ops, len_read + op_bytes_read)" in td.replace("\n", " "), ee.methods["decode"], None,
+              "expression decode consumes `length` bytes of operations and reports prefix + body", "expression decode accounting changed")
     op = repo.func("dwarf.cfi.Instruction._operands")
     to = src(op.node)
     ctx.check("if self._directive == '.cfi_escape':" in to and "self.encode(byteorder, ptr_size)" in to and "[getattr(self, field.name) for field in fields(self)]" in to, op, op.node,
